@@ -99,7 +99,20 @@ def run(ctx):
     for (k, u, f, call) in nul.strchr_sites(ctx, lambda k, u, f: u.name == 'time_zone_fixed.cc'):
         if nul.check_site(ctx, 'C15-nul', k, u, f, call):
             n += 1
-    ctx.minimum('C15-nul', 1)     # the two lookups of Parse02d may be folded into one helper
+    # (the lookups may be folded into a helper, or replaced by range tests: C15-digits decides that both
+    #  characters are established as digits; C15-nul only that a strchr lookup, where used, excludes NUL)
+
+    # ---- C15-digits: a two-digit field is accepted only when each of its characters is a decimal digit
+    kp = [k_ for k_ in G.defs if k_[0] == 'cctz::Parse02d' and G.defs[k_][0].name == 'time_zone_fixed.cc']
+    if len(kp) != 1:
+        raise AnalysisBroken('C15-digits: the two-digit field parser of time_zone_fixed.cc not found')
+    worst, sites = digit_count(ctx, kp[0])
+    ctx.check(worst is not None and worst >= 2, 'C15-digits', 'Parse02d yields a value only after two characters are established as digits',
+              sites[0] if sites else G.defs[kp[0]][1],
+              'Parse02d can return a non-negative value on a path where fewer than two characters have been established as '
+              'decimal digits (%s): strings that are not of the shape +hh:mm:ss are taken for fixed-offset names' % worst,
+              construct='digits:Parse02d', detail='at least %s digit tests before every accepting return' % worst)
+    ctx.minimum('C15-digits', 1)
 
     # ---- C15-shape / C15-bound
     u, f = ctx.fn('cctz::FixedOffsetFromName')
@@ -169,6 +182,42 @@ def run(ctx):
               'FixedOffsetFromName can hand back an offset beyond 24 hours: %s' % ', '.join(str(v) for (_, v) in vals),
               construct='shape:total')
     ctx.minimum('C15-shape', 9)
+
+    # ---- C15-complete: a name is refused only for a reason the shape allows (length, prefix, sign, colons,
+    # a field that is not two digits, total beyond 24h) -- any other refusal sends a well-formed name elsewhere
+    rejects = [rn for rn in g.returns if keys.key(kids(rn.ast)[0]) == 'n:0']
+    n_rej = 0
+    for rn in rejects:
+        bad_paths = 0
+        tot = 0
+        for (now, ever) in F.path_facts([rn], history=True):
+            tot += 1
+            cf = char_facts(ever)
+            why = None
+            if any(op == '!=' and set((a, b)) == set(('%s.size()' % namek, 'n:%d' % (plen + 9))) for (op, a, b) in ever):
+                why = 'length'
+            elif any(op == '==' and eq_key in (a, b) and 'n:0' in (a, b) for (op, a, b) in ever):
+                why = 'prefix'
+            elif ('!=', 43) in cf.get(plen, []) and ('!=', 45) in cf.get(plen, []):
+                why = 'sign'
+            elif ('!=', 58) in cf.get(plen + 3, []) or ('!=', 58) in cf.get(plen + 6, []):
+                why = 'colon'
+            elif any(op == '==' and 'n:-1' in (a, b) and _parse_of(F, a if b == 'n:-1' else b).startswith('cctz::Parse02d(')
+                     for (op, a, b) in ever):
+                why = 'digits'
+            elif any((op == '<' and a == 'n:86400') or (op == '<=' and a == 'n:86401') for (op, a, b) in ever):
+                why = 'total'
+            if why is None:
+                bad_paths += 1
+        n_rej += 1
+        ctx.check(bad_paths == 0 and tot > 0, 'C15-complete', 'refusal at %s is for a reason the name shape allows' % pos(rn.ast), rn.ast,
+                  'FixedOffsetFromName refuses a string on a path (%d of %d) where none of: wrong length, wrong prefix, no sign, '
+                  'missing colon, a field that is not two digits, total beyond 24 hours has been established: a well-formed '
+                  'fixed-offset name within 24 hours is not recognised as one (and is handed to the zone-data loader)'
+                  % (bad_paths, tot), construct='complete:%s' % keys.key(kids(rn.ast)[0]))
+    if n_rej < 1:
+        raise AnalysisBroken('C15-complete: FixedOffsetFromName has no refusing return')
+    ctx.minimum('C15-complete', 1)
 
     # ---- C15-bound: the 24h limits of the two directions agree
     u2, f2 = ctx.fn('cctz::FixedOffsetToName')
@@ -266,6 +315,77 @@ def check_bounds(ctx, rule, exact=True):
               'the offsets FixedOffsetFromName can hand back span [%s, %s] seconds, which differs from the range [%s, %s] '
               'FixedOffsetToName produces names for: some name the library generates is not accepted back, or a name '
               'beyond 24h is' % (alo, ahi, lo, hi), construct='bound:fromname', detail='[%s, %s]' % (alo, ahi))
+
+
+def digit_count(ctx, fk, _depth=0):
+    """(minimum over the returns that can yield a non-negative value of the number of distinct characters
+    established as decimal digits on arrival, the offending returns).  A character is established as a digit
+    by a successful strchr lookup in a table of the ten digits, by a range test '0' <= c <= '9', or by a
+    helper call (itself analysed the same way) yielding a non-negative value."""
+    from ..table import table_of
+    G = ctx.G
+    u, f = G.defs[fk]
+    F = ctx.facts(f)
+    g = ctx.cfg(f)
+    keys = F.keys
+
+    def init_key(k):
+        m = re.match(r'^(\w+)#(0x[0-9a-f]+)$', k)
+        if m:
+            d = u.by_id.get(m.group(2))
+            if d is not None and d.get('kind') == 'VarDecl' and kids(d):
+                return peel(kids(d)[-1])
+        return None
+    calls = {}
+    for x in walk(f):
+        if x.get('kind') == 'CallExpr' and callee(x) and callee(x)[0] == 'fn':
+            calls[keys.key(x)] = x
+    worst = None
+    sites = []
+    for rn in g.returns:
+        for (fs, val) in F.return_cases(rn):
+            if isinstance(val, str) and re.match(r'^n:-\d+$', val):
+                continue
+            if val is False or val is None:
+                continue
+            chars = set()
+            extra = 0
+            for (op, a, b) in fs:
+                for (x_, y_) in ((a, b), (b, a)):
+                    call = calls.get(x_)
+                    if call is None and init_key(x_) is not None and init_key(x_).get('kind') == 'CallExpr':
+                        call = init_key(x_)
+                    if call is None or not callee(call) or callee(call)[0] != 'fn':
+                        continue
+                    nm = callee(call)[1].get('name')
+                    args = call_args(call)
+                    if nm in ('strchr', 'memchr') and op == '!=' and y_ == 'null' and args:
+                        a0 = peel(args[0])
+                        d0 = u.by_id.get((a0.get('referencedDecl') or {}).get('id')) if a0.get('kind') == 'DeclRefExpr' else None
+                        try:
+                            tab = table_of(u, d0)[0] if d0 is not None else None
+                        except Exception:
+                            tab = None
+                        if tab is not None and [c for c in tab if c][:10] == [ord(c) for c in '0123456789'] and len([c for c in tab if c]) == 10:
+                            chars.add(keys.key(args[1]))
+                    elif callee(call)[1].get('_qn') and _depth < 3 and \
+                            ((op == '!=' and y_ == 'n:-1') or (op in ('<=', '<') and a == ('n:0' if op == '<=' else 'n:-1') and x_ == b)):
+                        tg = G.resolve_decl(callee(call)[1])
+                        if len(tg) == 1 and tg[0] != fk:
+                            sub, _ = digit_count(ctx, tg[0], _depth + 1)
+                            if sub:
+                                chars.add(keys.key(call))
+                                extra += sub - 1
+            # range tests 48 <= c <= 57
+            lows = set(b for (op, a, b) in fs if (op == '<=' and a == 'n:48') or (op == '<' and a == 'n:47'))
+            highs = set(a for (op, a, b) in fs if (op == '<=' and b == 'n:57') or (op == '<' and b == 'n:58'))
+            chars |= (lows & highs)
+            n = len(chars) + extra
+            if worst is None or n < worst:
+                worst = n
+            if n < 2:
+                sites.append(rn.ast)
+    return worst, sites
 
 
 def _parse_of(F, key):
